@@ -40,7 +40,7 @@ func TestVerifC12(t *testing.T) {
 			"otherwise soundness - one raw request with exactly one (or no) violated precondition out of {Host vs loopback listener, Content-Type, Accept, body size, protocol version header, header/_meta version mismatch, Mcp-Method, Mcp-Name, Mcp-Param-* absent/different/bad base64/unexpected} against the stateless 2026-07-28 endpoint, the stateful legacy endpoint or the SSE handler. " +
 			"non-trivial: an agreement case with >=1 annotated argument present, or a soundness case with a violation. distinct = distinct generated requests / (schema, arguments)",
 		MinNontrivial: 200,
-		Assumptions: []string{"the client has listed the tools before calling them (it learns the annotations there)", "integers within +-(2^53-1)", "soundness requests violate at most one precondition, so no order among checks is assumed"},
+		Assumptions:   []string{"the client has listed the tools before calling them (it learns the annotations there)", "integers within +-(2^53-1)", "soundness requests violate at most one precondition, so no order among checks is assumed"},
 	}
 	vh.Run(t, cfg, func(c *vh.Case) {
 		if c.Index%3 == 0 {
@@ -214,7 +214,7 @@ func c12Agreement(c *vh.Case) {
 // --------------------------------------------------------------- soundness
 
 type c12Req struct {
-	Endpoint  string            `json:"endpoint"` // stateless | stateful | sse
+	Endpoint  string            `json:"endpoint"`  // stateless | stateful | sse
 	Violation string            `json:"violation"` // "" = none
 	Listener  string            `json:"listener"`
 	Host      string            `json:"host"`
@@ -507,7 +507,6 @@ func c12Soundness(c *vh.Case) {
 }
 
 var _ = testing.Short
-
 
 // rotatingAuth is both the server-side gate and the client's OAuthHandler: the
 // valid token changes every few admitted requests; Authorize hands out the new one.
